@@ -1,0 +1,7 @@
+//go:build verif
+
+// Contracts for package mapper, read by /verif/govc. Comment-only file.
+package mapper
+
+//@ func (*Info).FieldByColumn
+//@ modifies nothing
